@@ -4,15 +4,15 @@ ADDENDA = {
     "C01": " long_lived: connections that still carry data 30 s after accept. abort_then_transfer: an aborted connection followed by a full transfer on the same proxy.",
     "C03": " Faults: the control connection is cut (udp and sudp) or the backend goes away for a while; after the fault the sender pauses longer than the re-establishment window, so later datagrams are outside the exclusion.",
     "C04": " ssh_gateway ops (thorough and quick): logins through the ssh tunnel gateway with authorized / unauthorized keys. invalid_heartbeats: a session fed only wrong-key heartbeats must end by the heartbeat timeout.",
-    "C05": " A fault variant removes the client's TLS material after the first login (re-login must not fall back to clear text).",
+    "C05": " A fault variant removes the client's TLS material after the first login (re-login must not fall back to clear text). Half of the wire cases give frpc its configuration as a file (TOML, or legacy INI) read by frp's own loader. identity_matrix also draws a server without certificate files of its own (generated certificate) for every combination.",
     "C06": " https_wire: real ClientHellos against the https muxer with multi-route proxies; a name matching no live route must be closed, never bridged and never left hanging.",
     "C07": " tcpmux_group_credentials: credential-protected tcpmux groups; http_routes also draws the '/' location and empty request paths.",
     "C08": " A wrong-signature NAT-hole / visitor request must be answered with an error within the bound (the harness's own table snapshot is bounded, so a wedged server is reported, not waited for).",
     "C09": " server_histories also drops a session while one of its registrations is in flight.",
     "C10": " Also server-chosen (-any) port kinds and joins by a wrong-key intruder.",
-    "C12": " Also a session drop with a registration in flight (regdrop).",
+    "C12": " Also a session drop with a registration in flight (regdrop), two sessions asking for the same name at the same moment (race: at most one is granted, a free name is granted to one of them), and sessions holding 10 / 40 / 120 further names (bulk) so that the teardown a re-login waits for takes a while; every name is re-registered right after the re-login is acknowledged.",
     "C14": " client_watchdog_backoff also checks run-id continuity (every re-login presents the run id the server last gave). healing faults: refuse, cut, black hole, dark (half-open) relay, reload during the outage, default loginFailExit, 120+ proxies.",
-    "C15": " Outcomes also include content with trailing JSON after the response object.",
+    "C15": " Outcomes also include content with trailing JSON after the response object. call_sites with heartbeatTimeout 2 s (a third of the cases): a session whose every heartbeat is refused by the Ping plugins must be gone within 7 s however often it pings; accepted heartbeats keep it alive for the rest of the script.",
     "C16": " frps_churn also draws visitor floods, twin re-logins, registrations beyond the limits, quota, and checks that bystander heartbeats keep being answered. frpc_stop_at_login: stop while the login is outstanding.",
     "C17": " live_first_message also keeps 0..3 peers stalled in the middle of their first frame while an honest login must complete within 3 s, and a peer that pipelines Login + encrypted Ping in one write (3 split variants). udp_content: payloads handed out by the udp packet decoder keep their content while further packets are decoded.",
     "C18": " env_template: {{ .Envs.X }} with values containing '=', base64, leading / trailing space, empty. concurrent_strict: strict and non-strict loads of 1..120-proxy files running concurrently; the strict ones must still reject an unknown key.",
